@@ -1201,6 +1201,205 @@ func (s *c01Sched) drain(resolve bool) {
 }
 
 // ---------------------------------------------------------------------------
+// restarts in pipelined schedules (case class "pipe")
+// ---------------------------------------------------------------------------
+
+// Reload replaces the live channel object of node x by one rebuilt from its
+// database with NewLightningChannel: a restart of that node alone while the
+// transport keeps running (the messages in both queues stay in flight).
+func (p *c01Pair) Reload(x int) (res string) {
+	defer c01Recover(&res)
+	old := p.Ch[x]
+	st := old.channelState
+	chans, err := st.Db.FetchOpenChannels(st.IdentityPub)
+	if err != nil {
+		return "fetcherr"
+	}
+	for _, oc := range chans {
+		if oc.FundingOutpoint != st.FundingOutpoint {
+			continue
+		}
+		lc, err := NewLightningChannel(old.Signer, oc, old.sigPool)
+		if err != nil {
+			return "err:" + c01ErrClass(err)
+		}
+		p.Ch[x] = lc
+		return "ok"
+	}
+	return "notfound"
+}
+
+// restartable: node x holds nothing a restart drops (every own update is
+// signed for, every received update is acknowledged by a revocation, no
+// received-but-unrevoked commitment); taproot channels additionally need a
+// reestablish for fresh nonces and are left to C02/C03.
+func (s *c01Sched) restartable(x int) bool {
+	ch := s.p.Ch[x]
+	if s.p.P.ChanType.IsTaproot() {
+		return false
+	}
+	return ch.updateLogs.Local.logIndex == ch.commitChains.Remote.tip().messageIndices.Local &&
+		ch.updateLogs.Remote.logIndex == ch.commitChains.Local.tail().messageIndices.Remote &&
+		!ch.commitChains.Local.hasUnackedCommitment()
+}
+
+func (s *c01Sched) restart(x int) {
+	pend := 0
+	if s.p.Ch[x].commitChains.Remote.hasUnackedCommitment() {
+		pend = 1
+	}
+	res := s.p.Reload(x)
+	s.emit(fmt.Sprintf("R %s pending=%d => %s q=%d,%d\n", string(rune('A'+x)), pend, res,
+		len(s.p.Q[0]), len(s.p.Q[1])))
+	s.stats["restart"]++
+	s.stats[fmt.Sprintf("restart_pending%d", pend)]++
+	if res != "ok" {
+		s.dead = true
+		return
+	}
+	s.dump(x)
+}
+
+// maybeRestart restarts every restartable node (always, or with probability
+// 1/2 per node).
+func (s *c01Sched) maybeRestart(always bool) {
+	xs := []int{0, 1}
+	if s.r.Intn(2) == 0 {
+		xs = []int{1, 0}
+	}
+	for _, x := range xs {
+		if s.dead {
+			return
+		}
+		if s.restartable(x) && (always || s.r.Intn(2) == 0) {
+			s.restart(x)
+		}
+	}
+}
+
+// someUpdate performs one random update on node x (add, resolution of a
+// locked-in HTLC, fee update by the opener); returns whether it succeeded.
+func (s *c01Sched) someUpdate(x int) bool {
+	r := s.r
+	ch := s.p.Ch[x]
+	cand := s.settleable(x)
+	k := r.Intn(10)
+	switch {
+	case len(cand) > 0 && k < 6:
+		idx := cand[r.Intn(len(cand))]
+		return s.runAct(x, c01Act{Kind: c01Pick(r, "settle", "settle", "fail", "malformed"), Idx: idx}) == "ok"
+	case ch.channelState.IsInitiator && k < 8:
+		return s.runAct(x, c01Act{Kind: "fee", FeePerKw: s.pickFee(x)}) == "ok"
+	default:
+		a := c01Act{Kind: "add", Amt: s.pickAmount(x), Expiry: c01Pick(r, uint32(100), 144, 500),
+			HashID: s.p.newHash()}
+		if s.runAct(x, a) == "ok" {
+			s.adds[x]++
+			s.last = &a
+			s.lastOwn[x] = &a
+			return true
+		}
+		return false
+	}
+}
+
+// deliverAll delivers the whole queue of direction d in order, revoking at
+// once for an accepted commitment_signed (link discipline), with a restart
+// attempt after every delivery.
+func (s *c01Sched) deliverAll(d int, always bool) {
+	for len(s.p.Q[d]) > 0 && !s.dead {
+		kind := s.p.Q[d][0].kind
+		res := s.runDeliver(d)
+		if kind == "commitsig" && res == "ok" {
+			s.runAct(1-d, c01Act{Kind: "revoke"})
+		}
+		s.maybeRestart(always)
+	}
+}
+
+// pipeCase: pipelined (non lock-step) rounds with restarts.  In every round
+// node x sends updates and a commitment_signed that stays in flight (its
+// updates are delivered or not); meanwhile y sends updates and its own
+// commitment_signed, which x receives and revokes for while its own commitment
+// is still unrevoked; then everything is delivered and the dance completed.
+// After every single step each node that holds nothing a restart would drop is
+// really restarted (always / with probability 1/2) and the schedule goes on.
+func (s *c01Sched) pipeCase(always bool, maxAdds int, tail int) {
+	r := s.r
+	// some HTLCs locked in both ways, so that both sides have something to resolve
+	for x := 0; x < 2; x++ {
+		for i, n := 0, 1+r.Intn(3); i < n; i++ {
+			a := c01Act{Kind: "add", Amt: s.pickAmount(x), Expiry: c01Pick(r, uint32(100), 144, 500),
+				HashID: s.p.newHash()}
+			if s.runAct(x, a) == "ok" {
+				s.adds[x]++
+				s.lastOwn[x] = &a
+			}
+		}
+	}
+	s.drain(false)
+	for round, rounds := 0, 2+r.Intn(3); round < rounds && !s.dead; round++ {
+		x := r.Intn(2)
+		y := 1 - x
+		// x: updates + signature
+		for i, n := 0, r.Intn(3); i < n; i++ {
+			s.someUpdate(x)
+			s.maybeRestart(always)
+		}
+		nUpd := len(s.p.Q[x])
+		if s.p.Ch[x].OweCommitment() && !s.p.Ch[x].commitChains.Remote.hasUnackedCommitment() {
+			s.runAct(x, c01Act{Kind: "sign"})
+			s.maybeRestart(always)
+		}
+		// x's updates (never its signature) reach y or stay in flight
+		if r.Intn(2) == 0 {
+			for i := 0; i < nUpd && len(s.p.Q[x]) > 0 && s.p.Q[x][0].kind != "commitsig" && !s.dead; i++ {
+				s.runDeliver(x)
+				s.maybeRestart(always)
+			}
+		}
+		// y: updates + signature while x's signature is in flight
+		for i, n := 0, 1+r.Intn(2); i < n && !s.dead; i++ {
+			s.someUpdate(y)
+			s.maybeRestart(always)
+		}
+		if !s.dead && s.p.Ch[y].OweCommitment() && !s.p.Ch[y].commitChains.Remote.hasUnackedCommitment() {
+			s.runAct(y, c01Act{Kind: "sign"})
+			s.maybeRestart(always)
+		}
+		// x receives y's updates and signature and revokes; x's own commitment is still pending
+		s.deliverAll(y, always)
+		// the rest of the dance
+		s.deliverAll(x, always)
+		s.deliverAll(y, always)
+		for i := 0; i < 6 && !s.dead; i++ {
+			progress := false
+			for z := 0; z < 2 && !s.dead; z++ {
+				ch := s.p.Ch[z]
+				if ch.OweCommitment() && !ch.commitChains.Remote.hasUnackedCommitment() {
+					if s.runAct(z, c01Act{Kind: "sign"}) == "ok" {
+						progress = true
+					}
+					s.maybeRestart(always)
+				}
+			}
+			s.deliverAll(0, always)
+			s.deliverAll(1, always)
+			if !progress {
+				break
+			}
+		}
+	}
+	// a random asynchronous tail under the link discipline, restarts after every step
+	for i := 0; i < tail && !s.dead; i++ {
+		if !s.step(true, maxAdds) {
+			break
+		}
+		s.maybeRestart(always)
+	}
+}
+
+// ---------------------------------------------------------------------------
 // the test
 // ---------------------------------------------------------------------------
 
@@ -1237,8 +1436,10 @@ func TestVerifC01(t *testing.T) {
 	defer w.Flush()
 
 	perKind, maxSteps, maxAdds := 24, 50, 8
+	perPipe, pipeTail := 6, 14
 	if tier == "thorough" {
 		perKind, maxSteps, maxAdds = 120, 130, 14
+		perPipe, pipeTail = 40, 40
 	}
 	if v, err := strconv.Atoi(os.Getenv("VERIF_C01_CASES")); err == nil && v > 0 {
 		perKind = v
@@ -1284,6 +1485,30 @@ func TestVerifC01(t *testing.T) {
 				s.drain(false)
 				w.WriteString("END\n")
 				stats["cases"]++
+				stats["type_"+kind.name]++
+			})
+		}
+		// pipelined schedules with restarts of single nodes
+		for c := 0; c < perPipe; c++ {
+			id++
+			caseID := id
+			r := rand.New(rand.NewSource(seed*1_000_003 + int64(ki)*10_007 + 5_000 + int64(c)))
+			t.Run(fmt.Sprintf("%s_pipe_%d", kind.name, c), func(t *testing.T) {
+				p := c01GenParams(r, kind)
+				pair, err := c01NewPair(t, p, uint32(caseID))
+				if err != nil {
+					t.Fatalf("pair: %v", err)
+				}
+				s := &c01Sched{r: r, p: pair, w: w, stats: stats}
+				w.WriteString(c01CaseHeader(caseID, "pipe", p, pair))
+				s.dump(0)
+				s.dump(1)
+				s.pipeCase(c%2 == 0, maxAdds, 6+r.Intn(pipeTail))
+				s.drain(r.Intn(2) == 0)
+				s.drain(false)
+				w.WriteString("END\n")
+				stats["cases"]++
+				stats["pipe_cases"]++
 				stats["type_"+kind.name]++
 			})
 		}
